@@ -59,13 +59,14 @@ def run(tier, seed, replay=None):
         order = rng.choice([2, 2, 3, 4]) if pd == 2 else rng.choice([2, 2, 3])
         ref = rng.choice([0, 0, 1, 2]) if pd == 2 else rng.choice([0, 0, 1])
         rep_knot = order >= 3 and rng.random() < 0.5
+        rat18 = rng.choice([False, False, False, True, 'mixed'])     # rational, or rational and polynomial patches side by side
         ring = rng.random() < 0.3
         if ring:
             # complexes closing around an axis: a patch adjacent to itself (one interface between its two ends), two
             # patches meeting along two interfaces, closed chains
-            cx = X.build_ring(rng, pd, order=order, refine=ref, repeat_knot=rep_knot)
+            cx = X.build_ring(rng, pd, order=order, refine=ref, repeat_knot=rep_knot, rational=rat18)
         else:
-            cx = X.build(rng, pd, order=order, refine=ref, repeat_knot=rep_knot)
+            cx = X.build(rng, pd, order=order, refine=ref, repeat_knot=rep_knot, rational=rat18)
         args = describe(cx, order=order, refine=ref)
         args['repeated_knot'] = rep_knot
         nontriv.add(C.case_hash(args))
@@ -163,8 +164,9 @@ def run(tier, seed, replay=None):
                         flip[axis] = bits[i]
                     flip = tuple(flip)
                 dec = Orientation(perm, flip)
-                a_ = np.asarray(fm.controlpoints)
-                b_ = np.asarray(fs.controlpoints)
+                # (a rational and a polynomial patch may share the interface: compare the points, not the storage)
+                a_ = np.asarray(fm.controlpoints)[..., :-1] / np.asarray(fm.controlpoints)[..., -1:] if fm.rational else np.asarray(fm.controlpoints)
+                b_ = np.asarray(fs.controlpoints)[..., :-1] / np.asarray(fs.controlpoints)[..., -1:] if fs.rational else np.asarray(fs.controlpoints)
                 mapped = np.stack([dec.map_array(b_[..., c_]) for c_ in range(b_.shape[-1])], axis=-1)
                 if mapped.shape != a_.shape or not np.allclose(mapped, a_, atol=1e-8):
                     fail('ifem connections', args, 'the orientation flag %d does not map the slave face onto the master face (%s)' % (flag, cn_,))
@@ -173,6 +175,7 @@ def run(tier, seed, replay=None):
             fail('ifem connections', args, 'raised %s' % type(e).__name__)
 
     # ---------------------------------------------------------------- faces of trilinear right-handed models, OpenFOAM order
+    of_cases = []
     for it in range(reps):
         ref = rng.choice([0, 1, 1, 2])
         ringf = rng.random() < 0.25
@@ -297,11 +300,35 @@ def run(tier, seed, replay=None):
             else:
                 if pos != nf:
                     fail('openfoam', args, 'boundary blocks do not cover all boundary faces')
+            # L1 (Model/OFoam.v): the same face list, in the order faces() returns it, through the model of the three stable
+            # sorts and of the groupby loop; compared with the files entry by entry
+            nmidx = lambda x_: -1 if x_ is None else int(str(x_)[1:])
+            of_cases.append(dict(args=args, line='ofoam %d %s' % (len(faces), ' '.join(
+                '4 %d %d %d %d %d %d %d' % (tuple(int(v_) for v_ in f_['nodes']) + (int(f_['owner']), int(f_['neighbor']), nmidx(f_['name']))) for f_ in faces)),
+                file_faces=[tuple(int(v_) for v_ in l_.strip('()').split()) for l_ in fl], owner=ow, neighbour=nb,
+                blocks=[(int(nm_[1:]), int(nfa_), int(st_)) for nm_, nfa_, st_ in blocks], declared=declared))
         except Exception as e:  # noqa
             fail('openfoam', dict(args, new_directory=bool(it % 2)), 'raised %s' % type(e).__name__)
         finally:
             shutil.rmtree(tmp, ignore_errors=True)
 
+    # ---------------------------------------------------------------- L1: OpenFOAM ordering vs Model/OFoam.v
+    if of_cases:
+        outs_ = C.run_model([c_['line'] for c_ in of_cases])
+        for c_, tk in zip(of_cases, outs_):
+            mf_ = tk.list(lambda: (tuple(tk.ilist()), tk.int(), tk.int(), tk.int()))
+            mb_ = tk.list(lambda: (tk.int(), tk.int(), tk.int()))
+            mdecl, mnint = tk.int(), tk.int()
+            count('L1 openfoam')
+            got_ = [(fn_, o_, n_) for fn_, o_, n_ in zip(c_['file_faces'], c_['owner'], c_['neighbour'])]
+            want_ = [(fn_, o_, n_) for fn_, o_, n_, _ in mf_]
+            if got_ != want_:
+                k_ = next((i_ for i_, (a_, b_) in enumerate(zip(got_, want_)) if a_ != b_), min(len(got_), len(want_)))
+                corr_bad += {'what': 'L1: OpenFOAM files: face %d is %s, model %s' % (k_, got_[k_] if k_ < len(got_) else None, want_[k_] if k_ < len(want_) else None),
+                             'op': 'openfoam', 'args': c_['args']}
+            elif c_['blocks'] != mb_ or c_['declared'] != mdecl:
+                corr_bad += {'what': 'L1: OpenFOAM boundary file: blocks %s declared %d, model %s declared %d' % (c_['blocks'], c_['declared'], mb_, mdecl),
+                             'op': 'openfoam', 'args': c_['args']}
     # ---------------------------------------------------------------- L1: faces() and cell numbers vs Model/Faces.v
     # structured trilinear patches (cell shape nx x ny x nz), alone or as the second of two disconnected patches (so that
     # the cell numbers start at an offset): nodes (through the patch's own cp_numbers), owner, neighbour, in the order the
